@@ -273,21 +273,68 @@ class Recorder:
         self.positions.append([v3bits(self.sim.get_node(i).position) for i in range(n)])
 
 
+def attach_passthrough_plugin(proto, one_shot):
+    """scenario flag dispatcher: the protocol uses a plugin built on the project's dispatcher (as the
+    mission / random-trip / statistics plugins are) whose handlers let every call pass. `one_shot`
+    handlers unregister themselves the first time they run - also the lifecycle ones. Nothing the
+    protocol observes may change."""
+    from gradysim.protocol.plugin.dispatcher import create_dispatcher, DispatchReturn
+    d = create_dispatcher(proto)
+
+    def on_timer(inst, timer):
+        if one_shot:
+            d.unregister_handle_timer(on_timer)
+        return DispatchReturn.CONTINUE
+
+    def on_packet(inst, message):
+        return DispatchReturn.CONTINUE
+
+    def on_telemetry(inst, telemetry):
+        if one_shot:
+            d.unregister_handle_telemetry(on_telemetry)
+        return None
+
+    def on_finish(inst):
+        if one_shot:
+            d.unregister_finish(on_finish)
+
+    def on_initialize(inst):
+        if one_shot:
+            d.unregister_initialize(on_initialize)
+
+    d.register_handle_timer(on_timer)
+    d.register_handle_packet(on_packet)
+    d.register_handle_telemetry(on_telemetry)
+    d.register_finish(on_finish)
+    d.register_initialize(on_initialize)
+    return d
+
+
 def make_protocol_class(rec):
+    plug = rec.scn.get("dispatcher") or {}
+
     class TableProtocol(IProtocol):
         _rec = rec
+        _plugin = None
+
+        def _attach(self, moment):
+            if plug and self._plugin is None and plug.get("when") == moment:
+                self._plugin = attach_passthrough_plugin(self, plug.get("oneShot", False))
 
         def initialize(self):
+            self._attach("initialize")
             self._rec.identities.append((self.provider.get_id(), id(self), id(self.provider)))
             self._rec.on_callback(self, "initialize", "")
 
         def handle_timer(self, timer):
+            self._attach("timer")
             self._rec.on_callback(self, "timer", timer)
 
         def handle_packet(self, message):
             self._rec.on_callback(self, "packet", message)
 
         def handle_telemetry(self, telemetry):
+            self._attach("telemetry")
             self._rec.on_callback(self, "telemetry", "", telemetry.current_position)
 
         def finish(self):
